@@ -199,7 +199,14 @@ def main():
     thms, aud = theorem_index(), audited()
     spec = read(os.path.join(VERIF, "lean", "Driver", "WireSpec.lean"))
     verbatim = set(re.findall(r'"(\w+)"', spec[spec.find("def verbatimSetters"):spec.find("def isHexish")]))
-    valued = set(re.findall(r'^\s*\| "(\w+)", \[', spec, re.M)) | set(re.findall(r'\| "(\w+)", \[[^\]]*\] =>', spec))
+    # the value clause: one table per family in Driver/WireSpec.lean (`typedExpect<Fam> name args`)
+    VAL_DEF = {"ICMPv6": "typedExpectIcmp6", "TCP": "typedExpectTcp", "IP": "typedExpectIp", "DHCP": "typedExpectDhcp",
+               "DHCPv6": "typedExpectDhcp6", "Dot11ManagementFrame": "typedExpectDot11", "PPPoE": "typedExpectPPPoE"}
+    valued = {}
+    for c_, d_ in VAL_DEF.items():
+        a_ = spec.find("def %s " % d_)
+        b_ = spec.find("\ndef ", a_ + 1)
+        valued[c_] = set(re.findall(r'"(\w+)", \[', spec[a_:b_])) if a_ >= 0 else set()
     rows, problems, gaps = [], [], []
     order = ["TCP", "IP", "IPv6", "ICMPv6", "DHCP", "DHCPv6", "RTP", "Dot11ManagementFrame", "PPPoE", "RC4EAPOL", "RSNEAPOL"]
     codecs.sort(key=lambda c: order.index(c[0]) if c[0] in order else 99)
@@ -224,9 +231,11 @@ def main():
         applied = bool(re.search(r'== "%s"' % re.escape(key), h))
         gen_ok = bool(re.search(r"\b%s\b" % re.escape(key), g))
         has_getter = not sget.startswith("-")
-        if key in verbatim:
+        if key in valued.get(cls, ()) and key in verbatim:
+            clause = "last-value-set + typed-getter-returns-set-value (+ getter-rejects-own-setter)"
+        elif key in verbatim:
             clause = "last-value-set (+ getter-rejects-own-setter)"
-        elif cls == "ICMPv6" and key in valued:
+        elif key in valued.get(cls, ()):
             clause = "typed-getter-returns-set-value (+ getter-rejects-own-setter)"
         elif has_getter and dumped and applied:
             clause = "getter-rejects-own-setter"
